@@ -25,7 +25,7 @@ from mc.ref import flags as F
 
 ID = "C04"
 LEVEL = "exploration"
-BUDGET = {"quick": 300, "thorough": 1500}
+BUDGET = {"quick": 300, "thorough": 3600}
 CHUNK = 16
 RULE = (
     "one case = one observed pandora.run of (scene, post-disparity pipeline); one evaluation = one (step, side) "
